@@ -487,11 +487,16 @@ func Run(r *hx.Run, replay []hx.Case) {
 			})
 		}
 	}
-	// retries on the same Auth value: first call honest / interrupted, second call everything up to length 2 (3)
+	// retries on the same Auth value: first call honest / interrupted, second call on a new connection.
+	// thorough: 4 first calls x every second sequence up to length 3 over the 11 symbols; quick: the honest and the
+	// interrupted first call x every second sequence of length 1 and those of length 2 that start with the replayed
+	// final, an empty challenge, a valid final or the empty-state final (the honest first call costs the model ~25 ms)
 	firsts := [][]byte{{symEmpty, symFirst, symFinal, symSuccess}, {symEmpty, symFirst}, {symEmpty, symFirst, symFinal}, {symEmpty}}
 	rl := 2
 	if thorough {
 		rl = 3
+	} else {
+		firsts = firsts[:2]
 	}
 	for _, v := range variants {
 		for _, f1 := range firsts {
@@ -499,6 +504,9 @@ func Run(r *hx.Run, replay []hx.Case) {
 				enumerate(n, 11, func(seq []byte) bool {
 					if r.Expired() {
 						return false
+					}
+					if !thorough && n == 2 && seq[0] != symReplay && seq[0] != symEmpty && seq[0] != symFinal && seq[0] != symFinalEmpty {
+						return true
 					}
 					runCase(r, mkCase(r, "c15r", v.name, f1, seq, "user", "pencil", salt, 2))
 					return true
